@@ -13,6 +13,7 @@ pub mod c12;
 pub mod c14;
 pub mod c21;
 pub mod c23;
+pub mod c24;
 pub mod c27;
 pub mod c28;
 pub mod c30;
@@ -39,6 +40,8 @@ pub fn registry() -> &'static [Check] {
         Check { meta: &c21::META21, run: c21::run21, shards: (16, 16) },
         Check { meta: &c21::META22, run: c21::run22, shards: (16, 16) },
         Check { meta: &c23::META, run: c23::run, shards: (16, 16) },
+        Check { meta: &c24::META24, run: c24::run24, shards: (16, 16) },
+        Check { meta: &c24::META25, run: c24::run25, shards: (16, 16) },
         Check { meta: &c27::META27, run: c27::run27, shards: (8, 16) },
         Check { meta: &c27::META29, run: c27::run29, shards: (8, 16) },
         Check { meta: &c28::META, run: c28::run, shards: (8, 16) },
